@@ -180,4 +180,22 @@ Proof. intros Hv Hm Hy Hmj Hne. apply verify_false_iff. apply verify_iff in Hv.
   destruct (fmul_eq0 K _ _ E) as [|E2]; [contradiction|].
   destruct (fmul_eq0 K _ _ E2) as [E3|]; [|contradiction]. apply Hne. now apply (fsub_eq0 K). Qed.
 
+(** the all-zero message: the X~ term stays - verification is e(s1, X~) = e(s2, g~), and under a generated key the only
+    signatures are (h, h x) *)
+Theorem verify_zero_message (pk : pkey K) n s :
+  verify pk (repeat f0 n) s = true <-> fst s <> f0 /\ fst s * pk_x2 pk = snd s * pk_g2 pk.
+Proof. rewrite verify_iff. unfold ps_relation. rewrite (ip_zero_r K).
+  split; intros [H1 H2]; split; auto; [rewrite <- H2 | rewrite <- H2]; ring. Qed.
+
+Theorem zero_message_signature_is_h_hx (sk : skey K) (pk : pkey K) n s : key_ok sk pk ->
+  (verify pk (repeat f0 n) s = true <-> fst s <> f0 /\ snd s = fst s * sk_x sk).
+Proof. intros Hk. rewrite (verify_key_ok sk pk) by assumption. rewrite (ip_zero_r K).
+  split; intros [H1 H2]; split; auto; rewrite H2; ring. Qed.
+
+Theorem zero_message_not_signed_by_trivial_pair (sk : skey K) (pk : pkey K) n h : key_ok sk pk -> sk_x sk <> f0 ->
+  verify pk (repeat f0 n) (h, f0) = false.
+Proof. intros Hk Hx. apply verify_false_iff. intros H. apply verify_iff in H.
+  apply (zero_message_signature_is_h_hx sk pk n (h, f0) Hk) in H. simpl in H. destruct H as [H1 H2].
+  symmetry in H2. destruct (fmul_eq0 K _ _ H2); contradiction. Qed.
+
 End P.
